@@ -51,8 +51,18 @@ JOINS = [
     "SELECT a FROM x WHERE EXISTS (SELECT 1 FROM y WHERE y.b = x.a)",
     "SELECT a, (SELECT MAX(c) FROM y WHERE y.b = x.a) AS m FROM x",
     "SELECT x.a, COUNT(y.c) AS n FROM x LEFT JOIN y ON x.b = y.b GROUP BY x.a",
+    # composite join keys: a row whose key is only partly NULL matches nothing
+    "SELECT x.a, y.c FROM x JOIN y ON x.a = y.b AND x.b = y.c",
+    "SELECT x.a, y.c FROM x LEFT JOIN y ON x.a = y.b AND x.b = y.c",
+    "SELECT x.a, y.c FROM x FULL JOIN y ON x.a = y.b AND x.b = y.c",
+    # both branches of a set operation read the same table
+    "SELECT a FROM x UNION ALL SELECT b FROM x",
+    "SELECT a FROM x UNION SELECT b FROM x",
+    "SELECT a FROM x EXCEPT SELECT b FROM x",
+    "SELECT a FROM x INTERSECT SELECT b FROM x",
+    "WITH q AS (SELECT a, b FROM x) SELECT a FROM q UNION ALL SELECT b FROM q",
 ]
-JOIN_SMALL = ["x.a", "x.b", "y.b"]
+JOIN_SMALL = ["x.a", "x.b", "y.b", "y.c"]
 
 
 def obligations(tier: str, seed: int):
